@@ -88,6 +88,10 @@ pub struct Writer {
     /// offsets (relative to base) of every xref section written
     pub xref_offsets: Vec<usize>,
     pub eol: &'static [u8],
+    /// byte-level mutations applied to the printed body of the k-th object written (k = selector % 48):
+    /// the damaged object still gets a correct offset, so the file keeps loading
+    pub body_muts: Vec<(u16, super::mutate::Mutation)>,
+    pub ordinal: u16,
 }
 
 impl Writer {
@@ -96,11 +100,11 @@ impl Writer {
         let base = buf.len();
         buf.extend_from_slice(format!("%PDF-{}\n", version).as_bytes());
         buf.extend_from_slice(b"%\xE2\xE3\xCF\xD3\n");
-        Writer { buf, base, pending: BTreeMap::new(), last_xref: None, crypt: None, tape: Tape::new(&[]), layout: Tape::new(&[]), truth: BTreeMap::new(), xref_offsets: Vec::new(), eol: b"\n" }
+        Writer { buf, base, pending: BTreeMap::new(), last_xref: None, crypt: None, tape: Tape::new(&[]), layout: Tape::new(&[]), truth: BTreeMap::new(), xref_offsets: Vec::new(), eol: b"\n", body_muts: Vec::new(), ordinal: 0 }
     }
     /// continue an existing file (incremental update written by the harness)
     pub fn append_to(existing: Vec<u8>, base: usize, last_xref: usize) -> Writer {
-        Writer { buf: existing, base, pending: BTreeMap::new(), last_xref: Some(last_xref), crypt: None, tape: Tape::new(&[]), layout: Tape::new(&[]), truth: BTreeMap::new(), xref_offsets: Vec::new(), eol: b"\n" }
+        Writer { buf: existing, base, pending: BTreeMap::new(), last_xref: Some(last_xref), crypt: None, tape: Tape::new(&[]), layout: Tape::new(&[]), truth: BTreeMap::new(), xref_offsets: Vec::new(), eol: b"\n", body_muts: Vec::new(), ordinal: 0 }
     }
     pub fn set_tape(&mut self, data: &[u8]) {
         self.tape = Tape::new(data);
@@ -144,7 +148,16 @@ impl Writer {
         let v = self.encrypted(num, gen, v);
         self.buf.extend_from_slice(format!("{} {} obj", num, gen).as_bytes());
         self.buf.extend_from_slice(self.eol);
-        let body = self.print_val(&v);
+        let mut body = self.print_val(&v);
+        if !self.body_muts.is_empty() {
+            let k = self.ordinal % 48;
+            for (sel, m) in self.body_muts.clone() {
+                if sel % 48 == k {
+                    super::mutate::apply(&mut body, &m, &[]);
+                }
+            }
+        }
+        self.ordinal = self.ordinal.wrapping_add(1);
         self.buf.extend_from_slice(&body);
         self.buf.extend_from_slice(self.eol);
         self.buf.extend_from_slice(b"endobj");
